@@ -32,7 +32,8 @@ theorem rows_length_le {w : World} {fl : List Nat} (L : PLink w fl) (hR : RowsAl
   have := BatchRel.nodup_length_le_of_lt u.idsNodup (n := w.entities.length) (by
     intro i hi
     obtain ⟨e, he, rfl⟩ := List.mem_map.mp hi
-    exact L.alive_lt (u.live e he).2.2.1)
+    obtain ⟨t, r, _, hx⟩ := (u.live e he).2.2.2
+    exact (List.getElem?_eq_some_iff.mp hx).1)
   rwa [List.length_map] at this
 
 /-- **`RemoveEntities(batch, nil)` keeps `QGood`** — also when relation targets are among the
